@@ -375,6 +375,13 @@ def warmup():
 
 HARNESSES = {"pure": dict(run=_run_pure, replay=_replay_pure, real_sig=_real_sig, pinned=_pinned, patch=dict(np_modules=[], stub_ascii=False))}
 
+MANIFEST = dict(
+    technique="symbolic execution of the real code under a symbolic RNG-state model (seeded RNGs delegate to the real generators, a draw from an "
+              "RNG whose state depends on the call history is the violation); on code where the property holds every path is decided without a "
+              "solver query, counterexamples are replayed on the real code after two different pre-histories",
+    level_text="bounded symbolic execution of the real functions with the initial state of every global RNG symbolic; every obligation on every explored "
+               "path is discharged for all RNG states within the stated bound, counterexamples are replayed on the real code")
+
 META = dict(
     functions=["GPTDatasetConfig.__post_init__ -> muutils.mlutils.set_reproducibility", "MazeDataset.generate (serial)", "_maze_gen_init_worker", "_generate_maze_helper",
                "GPTDataset.from_config(load_local=False, save_local=False)", "GPTDataset._apply_filters_from_config", "the five generators", "LatticeMaze.generate_random_path"],
